@@ -66,6 +66,9 @@ structure Node where
   /-- rows this object contributes beyond its own chain: mapped sub-objects that its `create_instance` builds on the
   fly (they live only inside the mapping's view, opaque to the model) and their association rows -/
   extra : List (String × Nat) := []
+  /-- kind `sub` only: how many leading scalar entries / reference fields `from_dao` takes from the object rebuilt
+  through the temporary parent DAO (`_build_base_kwargs_for_alternative_parent`) -/
+  pf : Nat × Nat := (0, 0)
   deriving Repr, DecidableEq, Inhabited
 
 abbrev Heap := List Node
@@ -234,6 +237,60 @@ def trigStale (unmap : Label → Option Label) (h : Heap) (roots : List Nat) : B
   match roundTrip true unmap h roots with
   | some (_, st) => st.hits != 0
   | none => false
+
+/-! ### F-C04-2: the temporary parent DAO of a `sub` node is memoised by `id()` but not kept alive
+
+`_build_base_kwargs_for_alternative_parent` builds `parent_dao = base()`, converts it with the shared `FromDAOState`
+(so `state.memo[id(parent_dao)]` stays behind) and drops it. When a later `sub` node's temporary parent DAO is
+allocated at the same address, `state.has(parent_dao)` is true and the object rebuilt for the EARLIER node is used:
+the later object gets the earlier one's parent-side scalars and references. Whether addresses collide is decided by
+the allocator / garbage collector, i.e. nondeterministic: the model applies an explicit `choice` (later slot ↦ donor
+slot) to the result heap. Sound as a post-processing step because in the grammar the harness generates `sub` nodes
+do not nest (their parent-side references lead to plain leaves), so they are processed one after the other in
+allocation order. -/
+
+def joinScal (xs : List String) : String := ",".intercalate xs
+
+def splitScal (s : String) : List String := if s == "" then [] else s.splitOn ","
+
+/-- slot `j` takes the parent-side data of the (already finished) slot `i` -/
+def applyDonor (out : Heap) (j i : Nat) : Heap :=
+  match out[j]?, out[i]? with
+  | some nj, some ni =>
+    out.set j { nj with
+      lab := ⟨nj.lab.cls, joinScal ((splitScal ni.lab.scal).take nj.pf.1 ++ (splitScal nj.lab.scal).drop nj.pf.1)⟩,
+      refs := ni.refs.take nj.pf.2 ++ nj.refs.drop nj.pf.2 }
+  | _, _ => out
+
+/-- collisions are applied in processing order (a donor may itself have been a victim before) -/
+def staleParent (out : Heap) (choice : List (Nat × Nat)) : Heap :=
+  choice.foldl (fun o c => applyDonor o c.1 c.2) out
+
+def isSub (out : Heap) (j : Nat) : Bool :=
+  match out[j]? with
+  | some n => n.kind == .sub
+  | none => false
+
+def subSlots (out : Heap) : List Nat := (List.range out.length).filter (isSub out)
+
+/-- same alternatively mapped base DAO (second table of the chain) -/
+def sameBase (out : Heap) (j i : Nat) : Bool :=
+  match out[j]?, out[i]? with
+  | some a, some b => a.tabs.drop 1 == b.tabs.drop 1
+  | _, _ => false
+
+/-- every admissible outcome: each `sub` slot keeps its own parent or takes an earlier one's (in slot order) -/
+def staleChoices (out : Heap) : List Nat → List Nat → List (List (Nat × Nat))
+  | _, [] => [[]]
+  | earlier, j :: rest =>
+    (none :: ((earlier.filter (sameBase out j)).map some)).flatMap fun d =>
+      (staleChoices out (earlier ++ [j]) rest).map fun c =>
+        match d with
+        | none => c
+        | some i => (j, i) :: c
+
+/-- trigger of F-C04-2: two `sub` objects below the same alternatively mapped base are rebuilt with one state -/
+def trigStaleParent (out : Heap) : Bool := (staleChoices out [] (subSlots out)).length > 1
 
 /-! ### Specification: isomorphism of rooted graphs -/
 
